@@ -72,7 +72,7 @@ type execSet struct {
 	spN    int
 	fifo   *workerExec
 	lifo   *workerExec
-	counts [5]int
+	counts [6]int
 }
 
 const (
@@ -81,10 +81,11 @@ const (
 	exSpawn
 	exFifo
 	exLifo
+	exNil // an explicit nil executor: the library documents it as "use the default" (ctx[0] == nil)
 	exKinds
 )
 
-var exNames = [...]string{"default", "inline", "spawn", "fifo", "lifo"}
+var exNames = [...]string{"default", "inline", "spawn", "fifo", "lifo", "explicit-nil"}
 
 // ctx returns the variadic executor argument for kind k.
 func (s *execSet) ctx(k int) []fp.Executor {
@@ -92,6 +93,8 @@ func (s *execSet) ctx(k int) []fp.Executor {
 	switch k {
 	case exDefault:
 		return nil
+	case exNil:
+		return []fp.Executor{nil}
 	case exInline:
 		return []fp.Executor{inlineExec{&s.inlN}}
 	case exSpawn:
